@@ -16,6 +16,7 @@ import (
 	"encoding/base64"
 	"encoding/json"
 	"fmt"
+	"io"
 	"math/big"
 	"net"
 	"net/http"
@@ -24,6 +25,7 @@ import (
 	"net/url"
 	"os"
 	"path"
+	rpprof "runtime/pprof"
 	"strconv"
 	"strings"
 	"sync"
@@ -137,6 +139,9 @@ func (p *prop) init() {
 	if err := caddy.Load([]byte(baseCfg), true); err != nil {
 		panic("loading base config: " + err.Error())
 	}
+	// keep the CPU profiler busy: /debug/pprof/profile then answers at once ("already in use")
+	// instead of spending 200 ms per request in Start/StopCPUProfile
+	rpprof.StartCPUProfile(io.Discard)
 	p.open, err = caddy.VerifAdminHandler(&caddy.AdminConfig{}, caddy.NetworkAddress{Network: "unix", Host: dir + "/none.sock"}, false)
 	if err != nil {
 		panic(err)
@@ -169,8 +174,10 @@ func mkReq(method, host, pth string, hdr http.Header, cs *tls.ConnectionState) *
 		hdr.Set("Content-Type", "application/json")
 		r.Body = readCloser{strings.NewReader("7")}
 	}
-	// pprof's profile/trace handlers refuse at once when the duration exceeds the server's write timeout
-	ctx := context.WithValue(context.Background(), http.ServerContextKey, &http.Server{WriteTimeout: time.Second})
+	// pprof's profile/trace handlers sleep until the duration is over or the request context is
+	// done: hand them a request whose client has already gone away
+	ctx, cancel := context.WithCancel(context.Background())
+	cancel()
 	return r.WithContext(ctx)
 }
 
@@ -640,12 +647,17 @@ func (c *acase) inDomain() string {
 	if c.path == "" || c.path[0] != '/' || !safeBytes(c.path) {
 		return "bad-op"
 	}
-	if c.method == "CONNECT" && !isCleanPath(c.path) {
-		return "bad-op"
-	}
 	chain, ok := idChain(c.idxKeys, c.idxVals, c.path)
 	if !ok {
 		return "too-many-redirects"
+	}
+	if c.method == "CONNECT" {
+		// the mux does not canonicalise CONNECT requests; unclean paths are outside the modelled mux
+		for _, cp := range chain {
+			if !isCleanPath(cp) {
+				return "bad-op"
+			}
+		}
 	}
 	if c.method == "POST" && contains(chain, "/stop") {
 		return "bad-op" // the real /stop handler exits the process
@@ -1062,7 +1074,9 @@ func (p *prop) Run(line string) core.Outcome {
 	if !ok {
 		return core.Outcome{Impl: "bad-table", Tags: []string{"bad-table", "trivial"}}
 	}
+	t0 := time.Now()
 	o := p.exec(c, addr)
+	t1 := time.Now()
 	after := p.readConfig()
 	stateChanged := after != p.base
 	if stateChanged {
@@ -1072,6 +1086,9 @@ func (p *prop) Run(line string) core.Outcome {
 		if p.readConfig() != p.base {
 			panic("base config not restored")
 		}
+	}
+	if os.Getenv("C13_TIMING") != "" && time.Since(t0) > 20*time.Millisecond {
+		fmt.Fprintf(os.Stderr, "SLOW exec=%v rest=%v %s %s %s changed=%v\n", t1.Sub(t0), time.Since(t1), c.method, c.path, o.final, stateChanged)
 	}
 	out := core.Outcome{Impl: fmt.Sprintf("%s %s %d %d", o.final, core.Hex(o.path), o.cors, o.hits)}
 	fs, tags := p.oracle(c, addr, o, stateChanged)
